@@ -303,6 +303,25 @@ func c05Scenarios(tier string) []e1lib.Scenario {
 		}
 	}
 	dev = 0
+	// 1100 elements (more than 1024) through every stage, the default schedule only: whatever a stage does at a size
+	// threshold, the list image is the same
+	for _, st := range []string{"map", "fmap", "filter", "takewhile", "take", "partition", "fold", "foreach", "void"} {
+		c := stage.Cfg{Stage: st, K: 1100, N: 1050, Cap: 0, Stop: -1, Stop2: -1, Mode: "pure", Mask: 0x2aaaaaaaaaaaaaaa}
+		if st == "fmap" {
+			c.Mode = "lift"
+		}
+		if st == "map" || st == "fmap" || st == "foreach" {
+			c.Mask = 0
+		}
+		if st == "takewhile" {
+			c.Mask = 0x3ffffffffffffffe // true up to 61
+		}
+		before := len(out)
+		add(c)
+		sc := &out[before]
+		sc.Bound, sc.Deviations, sc.Horizon, sc.RealDone = 0, true, 40*1100, nil
+		sc.Name += " deviations<=0"
+	}
 	return out
 }
 
